@@ -39,7 +39,13 @@ class Source:
         node = self.tree(rel)
         for part in qualname.split("."):
             nxt = None
+            # typing stubs (`@overload def f(...): ...`) are not the function: skip them
+            def is_stub(x):
+                return any((isinstance(d, ast.Name) and d.id == "overload") or (isinstance(d, ast.Attribute) and d.attr == "overload")
+                           for d in getattr(x, "decorator_list", []))
             for x in ast.walk(node):
+                if is_stub(x):
+                    continue
                 if x is node:
                     continue
                 if isinstance(x, (ast.ClassDef, ast.FunctionDef, ast.AsyncFunctionDef)) and x.name == part:
@@ -115,6 +121,9 @@ class Engine(FsMixin, ExprMixin, StmtMixin, CallMixin, SpecMixin, BuiltinMixin, 
         self.glob_results = []
         self.seq_facts = {}     # name of a sequence constant -> [fn(k) -> z3 Bool]: element-wise facts, instantiated on access
         self.sorted_info = {}
+        self._rel_of = getattr(self, '_rel_of', {})
+        self.covered_lines = set()
+        self.fn_locals = set()
         self._closed_ok = set()
         self.seq_lemmas = {}
         self.nstmts = self.nfeas = self.nawaits = 0
@@ -170,6 +179,7 @@ class Engine(FsMixin, ExprMixin, StmtMixin, CallMixin, SpecMixin, BuiltinMixin, 
         self.module_consts(rel)
         cls = qualname.rsplit(".", 1)[0].split(".")[-1] if "." in qualname else None
         self.functions[key] = (node, cls)
+        self._rel_of[key] = rel
         decs = decorators(node)
         if prop or "property" in decs or "cached_property" in decs:
             self.properties[key] = True
@@ -257,6 +267,9 @@ class Engine(FsMixin, ExprMixin, StmtMixin, CallMixin, SpecMixin, BuiltinMixin, 
         self.interference = c.get("interference")
         self.track_writes = set(c.get("track_writes", []))
         self.local_types = dict(c.get("locals", {}))
+        # names bound somewhere in the function: reading one before it is bound raises UnboundLocalError
+        self.fn_locals = {x.id for x in ast.walk(fn) if isinstance(x, ast.Name) and isinstance(x.ctx, ast.Store)}
+        self.covered_lines = set()
         self.merging = c.get("merge", True)
         self.effect_guards = c.get("effect_guards", {})
         self.current_key = key
@@ -317,6 +330,22 @@ class Engine(FsMixin, ExprMixin, StmtMixin, CallMixin, SpecMixin, BuiltinMixin, 
         for ob in self.obligations:
             have = {f.get_id() for f in ob.pc}
             ob.pc += [f for f in self.global_facts if f.get_id() not in have]
+        # statements of the function never reached with a feasible state: dead under the contract (candidates for vacuity)
+        skip = set()
+        for x in ast.walk(fn):
+            if x is not fn and isinstance(x, (ast.FunctionDef, ast.AsyncFunctionDef, ast.ClassDef, ast.Lambda)):
+                skip |= {getattr(y, "lineno", None) for y in ast.walk(x)}
+        all_lines = {x.lineno for x in ast.walk(fn) if isinstance(x, ast.stmt) and x is not fn and not isinstance(x, (ast.Pass, ast.Global, ast.Nonlocal, ast.Import, ast.ImportFrom))}
+        dropped_lines = {int(d.rsplit("@L", 1)[1]) for d in self.dropped if "@L" in d and d.rsplit("@L", 1)[1].isdigit()}
+        unreached = sorted(l for l in all_lines - skip - self.covered_lines - dropped_lines)
+        allowed = set(c.get("unreachable_ok", []))
+        texts = {}
+        try:
+            src_lines = open(os.path.join(self.src.repo, SRC, self._rel_of.get(key, ""))).read().splitlines()
+        except OSError:
+            src_lines = []
+        report["unreached"] = [dict(line=l, text=(src_lines[l - 1].strip() if 0 < l <= len(src_lines) else "")) for l in unreached]
+        report["unreached"] = [u for u in report["unreached"] if u["text"] not in allowed]
         report.update(obligations=self.obligations, trivial=list(self.trivial), undecided=list(self.undecided_paths), outcomes=kinds,
                       paths=len(outs), stmts=self.nstmts, awaits=self.nawaits, dropped=sorted(self.dropped),
                       symexec_s=time.time() - t0)
